@@ -115,7 +115,9 @@ Definition vstep (s : vsock) (o : vop) : vsock * vout * bool * bool :=
       let '(s', r) := poll cci (set_sends s script) in
       (s', VrPoll r (rev (v_out s')) (rev (v_wakes s')) (v_arm_in s'), false, false)
   | VoDeliver m =>
-      (set_inbox_waker (set_inbox s (v_inbox s ++ [m])) false, VrNone, v_inbox_waker s, false)
+      (* the socket dispatcher holds the only sender; once it is gone nothing can be delivered *)
+      if v_inbox_closed s then (s, VrNone, false, false)
+      else (set_inbox_waker (set_inbox s (v_inbox s ++ [m])) false, VrNone, v_inbox_waker s, false)
   | VoCloseInbox =>
       (set_inbox_waker (set_inbox_closed s true) false, VrNone, v_inbox_waker s, false)
   | VoWrite buf =>
